@@ -561,3 +561,35 @@ FD_BLOCK = Contract(
     note="block contract: the forward-difference quotient uses ONE step per knob, in optimizer units (knob step / weight), for the increment "
          "and for the divisor; the merit function is an uninterpreted deterministic map of the evaluation point")
 VARIANTS += [FD_BLOCK]
+
+
+# ----------------------------------------------------------------------------- MeritFunctionForMatch._get_x_limits   (C10, C16)
+from pyvc.limits_engine import LimitsEngine, v_lim_none      # noqa: E402
+from pyvc.num_engine import TLimits, v_lo, v_hi              # noqa: E402
+
+
+def _kl(jj, side):
+    """the knob limit the statement means: the Vary's own, or the module default when it has none"""
+    lo_d, hi_d = [x.t for x in LimitsEngine(None).default_pair_of(MO)]
+    return z3.If(v_lim_none(jj), lo_d if side == 0 else hi_d, v_lo(jj) if side == 0 else v_hi(jj))
+
+
+def _xl_inv(L):
+    kl = L.cur.knob_limits
+    return z3.And(0 <= L.k, L.k <= L.n, L.n == L.old.self.vary.n, kl.n == L.k,
+                  z3.ForAll([j], z3.Implies(z3.And(0 <= j, j < L.k), z3.And(z3.Select(kl.lo, j) == _kl(j, 0), z3.Select(kl.hi, j) == _kl(j, 1))),
+                            patterns=[z3.Select(kl.lo, j)]))
+
+
+GET_X_LIMITS_PROVED = Contract(
+    module=MO, qualname="MeritFunctionForMatch._get_x_limits", params=dict(self=TMerit), result=TLimits,
+    requires=[("weights-positive", lambda s: weights_positive(s.self.vary.n))],
+    ensures=[("row j of the x-space limits is (lower_j / weight_j, upper_j / weight_j) of knob j (the module default where the knob has no limits)",
+              lambda o, n, r: z3.And(r.n == o.self.vary.n, z3.ForAll([j], z3.Implies(z3.And(0 <= j, j < r.n), z3.And(
+                  z3.Select(r.lo, j) == _kl(j, 0) / W(j), z3.Select(r.hi, j) == _kl(j, 1) / W(j))), patterns=[z3.Select(r.lo, j)])))],
+    loops={0: LoopSpec(anchor="self.vary", invariants=[("pairs-so-far are the knob limits", _xl_inv)])},
+    min_obligations=4,
+    extra=dict(engine=LimitsEngine, variant="proved", pair_lists=("knob_limits",)),
+    note="the link between the limit block of JacobianSolver.step (x inside the x-space limits) and the statement (knob = x * weight inside the knob "
+         "limits): with the proved lemma 'limits commute with the scaling' of _knobs_to_x")
+VARIANTS += [GET_X_LIMITS_PROVED]
